@@ -23,22 +23,22 @@ package resolver
 
 // The credential function handed to the registry authorizer asks the keychains the caller configured -- that very list,
 // on every request (no layer in between that could remember an answer of an earlier pull). keychains(l): l is the list
-// the caller passed (a name, introduced by the precondition of the constructor); the host-configuration closure
+// the caller passed, all of it (a name for the array and its length, introduced by the precondition of the constructor); the host-configuration closure
 // captures that list (`captures`: checked where the closure is created) and hands it to multiCredsFuncs unchanged.
-//@ uf keychains(ref) bool
+//@ uf keychains(ref, int) bool
 //@ func github.com/hashicorp/go-retryablehttp.NewClient
 //@   trusted
 //@   ensures result != nil && result.HTTPClient != nil
 //@ func RegistryHostsFromConfig
 //@   props C18
-//@   requires keychains(ref(credsFuncs))
+//@   requires keychains(ref(credsFuncs), len(credsFuncs))
 //@ func RegistryHostsFromConfig$1
 //@   props C18
-//@   captures keychains(ref(credsFuncs))
-//@   loop 0 invariant keychains(ref(credsFuncs))
+//@   captures keychains(ref(credsFuncs), len(credsFuncs))
+//@   loop 0 invariant keychains(ref(credsFuncs), len(credsFuncs))
 //@ func multiCredsFuncs
 //@   props C18
-//@   requires[C18] keychains(ref(credsFuncs))
+//@   requires[C18] keychains(ref(credsFuncs), len(credsFuncs))
 // ... and its answer is the first non-empty answer of those keychains, asked now
 //@ func multiCredsFuncs$1
 //@   props C18
